@@ -2370,10 +2370,12 @@ def _escaped_like_impl(
         if not isinstance(other, str):
             raise TypeError("String value expected when autoescape=True")
 
-        if escape not in ("%", "_"):
-            other = other.replace(escape, escape + escape)
-
-        other = other.replace("%", escape + "%").replace("_", escape + "_")
+        # escape the escape character first, then the wildcards other than
+        # the escape character itself
+        other = other.replace(escape, escape + escape)
+        for wildcard in ("%", "_"):
+            if wildcard != escape:
+                other = other.replace(wildcard, escape + wildcard)
 
     return fn(other, escape=escape)
 
